@@ -149,6 +149,26 @@ func runC10(w *World, r *Report) {
 				if !calls {
 					return
 				}
+				// the deferred literal decides on the function's NAMED error result: only then does every `return …, e`
+				// reach it. A local `var err error` that some return paths never assign leaves their reservations behind.
+				resName := ""
+				if rs := cr.Signature.Results(); rs != nil && rs.Len() > 0 {
+					resName = rs.At(rs.Len() - 1).Name()
+				}
+				onResult := false
+				lit := mc.Fn.(*ssa.Function)
+				for _, b := range lit.Blocks {
+					v, _, _, isT := errNilTest(b)
+					if !isT {
+						continue
+					}
+					if ld, isLd := v.(*ssa.UnOp); isLd {
+						if al, isAl := familyOf(cr).canon(ld.X).(*ssa.Alloc); isAl && resName != "" && al.Comment == resName {
+							onResult = true
+						}
+					}
+				}
+				r.Check(onResult, "C10-R1", "(*MetaCDC).Create | revert decides on the named error result", d.Pos(), "tests the result variable "+resName, "the deferred revert tests a variable that is not Create's named error result: an error returned directly (`return nil, NewClientError(…)`) does not pass through it, so a rejected request keeps its names, exclusions and user-role flag registered")
 				// no error return between reserve success and the defer
 				bad := false
 				eachInstr(cr, func(x ssa.Instruction) {
